@@ -480,6 +480,9 @@ func (c *fileCtx) selectStmt(s *ast.SelectStmt, wc *walkCtx) {
 			c.walk(st, wc)
 		}
 	}
+	// a default clause keeps the rewritten statement "terminating" whenever the
+	// select was (all clauses return)
+	c.insert(s.Body.Rbrace, "; default: panic(\"simrt: select\") ")
 	c.insert(s.End(), "}")
 }
 
